@@ -224,7 +224,7 @@ def spec_battle_model(ctx):
     cfg = "MC_Battle.cfg" if ctx.quick else "MC_Battle_thorough.cfg"
     r = ctx.tlc("MC_Battle", cfg=cfg, workers=NCPU, timeout=7000, heap="24g")
     ctx.notes["spec_model"] = "%s: %d distinct states; Safe, RefAgree (independent flat scheduler), CycleProps, RunIsStepping, RotInv, EvProps hold" % (cfg, r["distinct"])
-    if not ctx.quick:
+    if not ctx.quick and ctx.prop == "C02":
         r3 = ctx.tlc("MC_Battle", cfg="MC_Battle_3w.cfg", workers=NCPU, timeout=7000, heap="24g")
         ctx.notes["spec_model_3_warriors"] = "MC_Battle_3w.cfg: %d distinct states" % r3["distinct"]
 
